@@ -63,6 +63,21 @@ def input_binding(ctx, prog):
     ok = f"txo_script = {txi}.txo_ref.txo.script" in t and "address = ledger.hash160_to_address(txo_script.values.get('pubkey_hash', ''))" in t and \
         "private_key = await ledger.get_private_key_for_address(wallet, address)" in t
     ctx.ob("C04-D1/BIND", ok, sg.site(), "the signing key is looked up from the pubkey_hash of the output this input spends", func=q, key=f"C04-D1/BIND|{q}|key-lookup")
+    allowed = ["txo_script.is_pay_pubkey_hash", "txo_script.is_pay_script_hash", "'pubkey_hash' in txo_script.values"]
+    lk = [x for x in sg.stmts(ast.Assign) if any(dotted(tg) == "private_key" for tg in x.targets)]
+    for x in lk:
+        by_hash = "get_private_key_for_address" in unparse(x.value)
+        R.exact_gate(ctx, "C04-D1/GATE", sg, x, "'pubkey_hash' in txo_script.values" if by_hash else "'pubkey_hash' not in txo_script.values",
+                     "the key is looked up by the spent output's pubkey_hash whenever the output has one" if by_hash else "a caller-supplied key is used only for an output without pubkey_hash",
+                     ignore=["txo_script.is_pay_pubkey_hash", "txo_script.is_pay_script_hash", "not txo_script.is_pay_pubkey_hash", f"{txi}.script is not None", f"{txi}.txo_ref.txo is not None"],
+                     key=f"C04-D1/GATE|{q}|key-source|{by_hash}")
+    for x in sigs + pubs:
+        R.only_terms(ctx, "C04-D1/GATE", sg, x, allowed + ["private_key is not None", f"{txi}.script is not None", f"{txi}.txo_ref.txo is not None"], "every p2pkh / p2sh input is signed — no further condition", key=f"C04-D1/GATE|{q}|sign-always|{norm_text(x.targets[0])[:40]}")
+        ok = sg.guarded(x, "txo_script.is_pay_pubkey_hash or txo_script.is_pay_script_hash")[0]
+        ctx.ob("C04-D1/GATE", ok, sg.site(x), "…and only those", func=q)
+    rz = [r for r, k in R.raise_kinds(sg) if k == "NotImplementedError"]
+    ok = len(rz) == 1 and sg.guarded(rz[0], "not (txo_script.is_pay_pubkey_hash or txo_script.is_pay_script_hash)")[0]
+    ctx.ob("C04-D1/GATE", ok, sg.site(), "an input spending any other kind of output makes sign() fail — it is never left unsigned silently", func=q, key=f"C04-D1/GATE|{q}|unknown-raises")
     gens = [c for c in sg.calls(name="generate") if unparse(c.func) == f"{txi}.script.generate"]
     ok = len(gens) == 1 and all(sg.must_precede(gens[0], lambda n, s=s: n is s) is None for s in sigs + pubs)
     ctx.ob("C04-D1/ORDER", ok, sg.site(), "the input script is regenerated after signature and key were stored", func=q)
@@ -98,11 +113,15 @@ def sighash_all(ctx, prog):
     q = f2.qualname
     # expected: same as _serialize with inputs unconditionally, per-input branch on signing_input, trailing hash type
     want = [("w", "uint32", "self.version"), ("w", "compact_size", "len(self._inputs)"),
-            ("rep", "enumerate(self._inputs)", [("if", "signing_input == i",
-                                                 [("if", "txin.script.is_script_hash", [("call", "txin.serialize_to")], [("call", "txin.serialize_to")])],
+            ("rep", "enumerate(self._inputs)", [("if", seqops.cond("signing_input == i"),
+                                                 [("if", seqops.cond("txin.script.is_script_hash"), [("call", "txin.serialize_to")], [("call", "txin.serialize_to")])],
                                                  [("call", "txin.serialize_to")])]),
             ("call", "self._serialize_outputs"), ("w", "uint32", "self.locktime"), ("w", "uint32", "self.signature_hash_type(1)")]
     ok = b == want
+    fa2 = ctx.fa(f2.qualname)
+    r_ = R.single_return_value(fa2)
+    ok_r = r_ is not None and norm_text(r_.value) == "stream.get_bytes()" and [norm_text(x.value) for x in fa2.stmts(ast.Assign) if any(dotted(tg) == "stream" for tg in x.targets)] == ["BCDataStream()"]
+    ctx.ob("C04-D2/DEP", ok_r, f2.site(), "what is signed is the bytes of that very stream (a fresh BCDataStream)", func=q, key=f"C04-D2/DEP|{q}|returns-stream")
     ctx.ob("C04-D2/SEQ", ok, f2.site(), "the signing serialisation is version, input count, every input, outputs, locktime, then one u32 hash type",
            detail="" if ok else seqops.fmt(b), func=q, key=f"C04-D2/SEQ|{q}")
     # agreement with _serialize on the common part
@@ -202,6 +221,16 @@ def verify(ctx, prog):
     rz = R.raise_kinds(vf)
     ok = any(vf.guarded(x, f"len({sig}) != 64")[0] for x, k in rz) and any(vf.guarded(x, f"len({dg}) != 32")[0] for x, k in rz)
     ctx.ob("C04-D4/GATE", ok, vf.site(), "verify refuses signatures that are not 64 bytes and digests that are not 32 bytes", func=q)
+    ctx.floor("C04-D4/GATE", "length refusals in PublicKey.verify", len(rz), 2, site=vf.site(), func=q)
+    exp = [f"len({sig}) != 64", f"len({sig}) == 64 and len({dg}) != 32"]
+    for (x, k), g in zip(rz, exp):
+        R.exact_gate(ctx, "C04-D4/GATE", vf, x, g, "each refusal fires exactly for its wrong length (a 64-byte signature over a 32-byte digest always reaches the curve library)",
+                     key=f"C04-D4/GATE|{q}|refuse-exact|{g[-2:]}")
+    asr = [a for a in vf.stmts(ast.Assert)]
+    pc = [x for x in vf.stmts(ast.Assign) if "secp256k1_ecdsa_signature_parse_compact" in unparse(x.value)]
+    ok = len(pc) == 1 and any(R.same_test(a.test, f"{dotted(pc[0].targets[0])} == 1") for a in asr)
+    ctx.ob("C04-D4/GATE", ok, vf.site(), "a signature the library cannot parse is refused (parse result asserted == 1), never verified from an uninitialised structure", func=q,
+           key=f"C04-D4/GATE|{q}|parsed")
     calls = {call_name(c): c for c in vf.calls() if call_name(c).startswith("secp256k1_")}
     need = ["secp256k1_ecdsa_signature_parse_compact", "secp256k1_ecdsa_signature_normalize", "secp256k1_ecdsa_verify"]
     ok = all(n in calls for n in need)
